@@ -1016,8 +1016,15 @@ class Buffer:
         """
         Move forwards through the history.
 
-        :param count: Amount of items to move forward.
+        :param count: Amount of items to move forward. (Nothing happens for
+            zero, a negative count moves backward; like readline.)
         """
+        if count == 0:
+            return
+        if count < 0:
+            self.history_backward(-count)
+            return
+
         self._set_history_search()
 
         # Go forward in history.
@@ -1039,7 +1046,16 @@ class Buffer:
     def history_backward(self, count: int = 1) -> None:
         """
         Move backwards through history.
+
+        :param count: Amount of items to move backward. (Nothing happens for
+            zero, a negative count moves forward; like readline.)
         """
+        if count == 0:
+            return
+        if count < 0:
+            self.history_forward(-count)
+            return
+
         self._set_history_search()
 
         # Go back in history.
